@@ -9,6 +9,6 @@ for d in /verif/seeded/*/; do
   git -C /repo apply $d/patch.diff
   out=$(./check $pid 2>&1 | grep "^VIOLATION" | head -1)
   git -C /repo checkout -- .
-( cd /verif/go && GOFLAGS=-mod=mod GOPROXY=off GOSUMDB=off GOTOOLCHAIN=local go run -tags verif ./cmd/gotocoq -out ../coq/Gen >/dev/null 2>&1 )  # tables back to the clean tree's
+( cd /verif/go && GOFLAGS=-mod=mod GOPROXY=off GOSUMDB=off GOTOOLCHAIN=local go run -tags verif ./cmd/gotocoq -out ../coq/Gen >/dev/null 2>&1; go run ./cmd/effects -repo /repo -out ../coq/Gen/Effects.v >/dev/null 2>&1 )  # tables back to the clean tree's
   if [ -n "$out" ]; then echo "DETECTED $n by $pid: $out"; else echo "MISSED $n by $pid"; fi
 done
